@@ -247,6 +247,13 @@ pub fn f32_from_le(b: [u8; 4]) -> (r: f32) ensures r == f32_of_bits(dle32(b@, 0)
 #[verifier::external_body]
 pub fn f32_from_be(b: [u8; 4]) -> (r: f32) ensures r == f32_of_bits(dbe32(b@, 0) as u32) { f32::from_be_bytes(b) }
 
+// std stand-ins that only matter for CHANGED code (0 hits on /repo): they let an edit that swallows an error reach
+// the verifier.  Contracts are those of std.
+pub assume_specification<T, E>[Result::<T, E>::unwrap_or](x: Result<T, E>, d: T) -> (v: T)
+    ensures x matches Ok(y) ==> v == y, x is Err ==> v == d;
+pub assume_specification<T: Default, E>[Result::<T, E>::unwrap_or_default](x: Result<T, E>) -> (v: T)
+    ensures x matches Ok(y) ==> v == y;
+
 /// shim for byteordered::Endianness (external crate, a plain 2-variant enum)
 #[derive(Clone, Copy)]
 pub enum Endianness { Big, Little }
@@ -557,6 +564,14 @@ pub fn zoom_rfind_mut(v: &mut Vec<ZoomHeader>, reduction_level: u32) -> (r: Opti
         None => None,
     }
 }
+/// any OTHER `V.iter_mut()[.rev()].find(|h| <some predicate>)` (0 hits on /repo: an edit that changes the
+/// predicate): SOME element is handed out or none - which one is not promised, so the edit is judged by the contract
+#[verifier::external_body]
+pub fn zoom_find_mut_any(v: &mut Vec<ZoomHeader>, reduction_level: u32) -> (r: Option<&mut ZoomHeader>)
+    ensures
+        r is None ==> final(v)@ == old(v)@,
+        r matches Some(h) ==> exists|i: int| 0 <= i < old(v)@.len() && *h == old(v)@[i] && final(v)@ == old(v)@.update(i, *final(h)),
+{ unimplemented!() }
 
 // ---------------- the reader: `Self: BBIReadInternal` with `Self::Read = VRead` ----------------
 /// stands for `BigWigRead<R>` / `BigBedRead<R>` as seen through `trait BBIReadInternal`: `reader_and_info()`
